@@ -63,6 +63,7 @@ UNITS['lex'] = {
         ('prefixed_keeps_prefix', 'str_slice_from(input, 1)', 'str_slice_from(input, 0)', ['C11.tok', 'C04.lex']),
         ('number_unwrap', 'str_parse_u64(input).ok()', 'Some(str_parse_u64(input).unwrap())', ['C04.lex']),
         ('error_dropped', 'Err(_) => { let span = Span::new(loc.clone(), range); errors.push(ParserError::new(span));', 'Err(_) => { let span = Span::new(loc.clone(), range);', ['C11.tok', 'C04.lex.tokenize']),
+        ('error_span_one_byte', 'Err(_) => { let span = Span::new(loc.clone(), range);', 'Err(_) => { let span = Span::new(loc.clone(), range.start..range.start + 1);', ['C11.tok', 'C04.lex.tokenize']),
         ('http_status_off_by_one', "'4' => atom::HttpStatusRange::ClientError,", "'4' => atom::HttpStatusRange::ServerError,", ['C11.tok', 'C04.lex']),
     ],
 }
